@@ -66,6 +66,7 @@ pub(super) fn get_config(dir: &Path) -> io::Result<Vec<ASCAConfig>> {
 }
 
 pub(super) fn get_all_rules(rule_seqs: &[ASCAConfig], conf: &ASCAConfig) -> io::Result<Vec<RuleGroup>> {
+    #[cfg(feature = "verif")] asca::verif::tick(111);
     if let Some(from_tag) = &conf.from {
         let Some(seq) = rule_seqs.iter().find(|c| c.tag == *from_tag) else {
             let possible_tags = rule_seqs.iter().map(|c| c.tag.clone()).collect::<Vec<_>>().join("\n- ");
@@ -87,6 +88,7 @@ pub(super) fn get_all_rules(rule_seqs: &[ASCAConfig], conf: &ASCAConfig) -> io::
 }
 
 pub(super) fn get_orig_alias_into(rule_seqs: &[ASCAConfig], dir: &Path,  conf: &ASCAConfig) -> io::Result<Vec<String>> {
+    #[cfg(feature = "verif")] asca::verif::tick(112);
     if let Some(from_tag) = &conf.from {
         let Some(seq) = rule_seqs.iter().find(|c| c.tag == *from_tag) else {
             let possible_tags = rule_seqs.iter().map(|c| c.tag.clone()).collect::<Vec<_>>().join("\n- ");
@@ -106,6 +108,7 @@ pub(super) fn get_orig_alias_into(rule_seqs: &[ASCAConfig], dir: &Path,  conf: &
 }
 
 pub(super) fn get_orig_words(rule_seqs: &[ASCAConfig], dir: &Path,  conf: &ASCAConfig) -> io::Result<Vec<String>> {
+    #[cfg(feature = "verif")] asca::verif::tick(113);
     if let Some(from_tag) = &conf.from {
         let Some(seq) = rule_seqs.iter().find(|c| c.tag == *from_tag) else {
             let possible_tags = rule_seqs.iter().map(|c| c.tag.clone()).collect::<Vec<_>>().join("\n- ");
@@ -130,6 +133,7 @@ pub(super) fn get_orig_words(rule_seqs: &[ASCAConfig], dir: &Path,  conf: &ASCAC
 
 /// Determine which word file to use, validate, and parse it into a vec of word strings
 pub(super) fn get_words(rule_seqs: &[ASCAConfig], dir: &Path, words_path: &Option<PathBuf>, conf: &ASCAConfig, seq_cache: &mut HashMap<Rc<str>, Vec<String>>) -> io::Result<Vec<String>> {
+    #[cfg(feature = "verif")] asca::verif::tick(114);
     let mut words = if let Some(from_tag) = &conf.from {
         if let Some(x) = seq_cache.get(from_tag) {
             x.clone()
@@ -256,6 +260,7 @@ fn print_result(trace: &[Vec<String>], tag: &str, all_steps: bool) {
 
 /// Pass a sequence to ASCA and return a trace and the name of each file that was used
 pub fn run_sequence(config: &[ASCAConfig], dir: &Path, words_path: &Option<PathBuf>, seq: &ASCAConfig, seq_cache: &mut HashMap<Rc<str>, Vec<String>>) -> io::Result<Option<(SeqTrace, Vec<PathBuf>)>> {
+    #[cfg(feature = "verif")] asca::verif::tick(115);
     let mut files = Vec::new();
     let mut trace = Vec::new();
 
